@@ -203,6 +203,9 @@ func (p *Program) GenFunc(fc *FuncContract, prop string) (res *FuncResult) {
 		ex.trusted[fc.Key()] = fc.Trusted
 		return
 	}
+	for _, e := range fc.AssumedEnsures {
+		vc.assumeNote("assumed, not proved: postcondition of " + fc.Key() + ": " + e.Text)
+	}
 	ex.topFn = fn
 	for _, pl := range fc.Preludes {
 		ex.needPrelude(pl)
@@ -268,6 +271,7 @@ func (p *Program) GenFunc(fc *FuncContract, prop string) (res *FuncResult) {
 	for _, u := range fc.Uses {
 		vc.Assume(sc.evalBool(u.Expr), "lemma instance "+u.Text)
 	}
+	_ = vc.AssumeHeavy
 	// vacuity guard: the preconditions are satisfiable
 	ex.vc.AddObl(&Obligation{Name: fc.Key() + ".vacuity.requires", Kind: "vacuity", Hyp: TTrue, Goal: TTrue, Expect: Sat,
 		Note: "the preconditions (and assumptions) are satisfiable", Inputs: inputs, NoReplay: true})
